@@ -574,6 +574,14 @@ func emptyGen(r *rand.Rand, n int, tier string, emit func(Case)) {
 		if r.Intn(6) == 0 {
 			c["other"] = []string{"POINT EMPTY", "GEOMETRYCOLLECTION EMPTY", "GEOMETRYCOLLECTION(POLYGON EMPTY)", "LINESTRING EMPTY"}[r.Intn(4)]
 		}
+		switch r.Intn(8) {
+		case 0: // the partner is a polygon that contains the whole value strictly (no boundary contact: the fallback paths)
+			c["other"] = fmt.Sprintf("POLYGON((-1 -1,%d -1,%d %d,-1 %d,-1 -1))", l.N+1, l.N+1, l.N+1, l.N+1)
+		case 1: // ... or a MultiPolygon / collection of such
+			c["other"] = fmt.Sprintf("GEOMETRYCOLLECTION(MULTIPOLYGON(((-1 -1,%d -1,%d %d,-1 %d,-1 -1))),POINT(-5 -5))", l.N+1, l.N+1, l.N+1, l.N+1)
+		case 2: // the value is a big polygon (as a MultiPolygon, so that it has members) and the partner lies strictly inside it
+			c["w"] = fmt.Sprintf("MULTIPOLYGON(((-1 -1,%d -1,%d %d,-1 %d,-1 -1)))", l.N+1, l.N+1, l.N+1, l.N+1)
+		}
 		emit(c)
 	}
 }
